@@ -1,6 +1,15 @@
 """Per-property metadata used by the runner (levels, explanations)."""
 
 PROPS = {
+    "C02": {
+        "level": "other",
+        "explanation": "restart wiring decided on all paths: every live index mutation is behind the append of its "
+                       "record, logged bytes are the encoding of the applied op, snapshot/version/prune/replay use "
+                       "one version value (provenance), checkpoints hold both locks, load rebuilds refcounts and "
+                       "statistics before replay, replay skips only by version",
+        "not_decided": "the segment arithmetic (which version lands in which segment, <= vs <, N = 1, restart at a "
+                       "boundary, repeated restarts): values, not shape",
+    },
     "C03": {
         "level": "other",
         "explanation": "write-order protocol of the process-kill model decided on all paths: must-happened-before "
